@@ -1,8 +1,13 @@
 (* Executable entry points for the C04 correspondence shards. *)
 From Coq Require Import List NArith ZArith Bool.
-From AdltV Require Import Base.Obs Base.Res Base.MachInt Dlt.Frame Dlt.Iter Reader.LowMark Dlt.Chunk.
+From AdltV Require Import Base.Obs Base.Res Base.MachInt Dlt.Frame Dlt.Iter Dlt.Chunk.
+From AdltV Require Export Reader.LowMark.
 Import ListNotations.
 Open Scope N_scope.
+
+(* signed seek offsets as printed by the harness (the shards do not load the Z notations) *)
+Definition zp (n : N) : Z := Z.of_N n.
+Definition zn (n : N) : Z := Z.opp (Z.of_N n).
 
 (* byte strings are described structurally (big literal lists are slow to parse) *)
 Inductive seg : Type :=
